@@ -242,6 +242,30 @@ func init() {
 		}
 		return True, callDone
 	}
+	vfIntrinsics["vfWaitFor"] = func(c *callCtx, a []Value) (Value, callStatus) {
+		cond := a[0].(*Closure)
+		e, g := c.e, c.g
+		test := func() bool {
+			depth := len(g.stack)
+			st := g.status
+			g.status = gRunnable
+			v := e.callSync(g, cond, nil)
+			g.status = st
+			if len(g.stack) != depth {
+				panic(pathEnd{kind: endUnsupported, msg: "vfWaitFor: condition changed the stack"})
+			}
+			t, ok := v.(*Term)
+			if !ok || !t.IsConst() {
+				panic(pathEnd{kind: endUnsupported, msg: "vfWaitFor: symbolic condition"})
+			}
+			return t.V == 1
+		}
+		if test() {
+			return nil, callDone
+		}
+		e.block(g, "vfWaitFor", test, func() { c.finish(nil) })
+		return nil, callBlocked
+	}
 	vfIntrinsics["vfSymbolic"] = func(c *callCtx, a []Value) (Value, callStatus) {
 		return Bool(!c.e.opts.Concrete && c.e.opts.ForcedModel == nil), callDone
 	}
